@@ -1105,6 +1105,18 @@ jump_handshake(br_ssl_engine_context *cc, int action)
 				continue;
 			}
 		}
+		if (cc->hlen_in != 0 && cc->ibuf == cc->obuf) {
+			/*
+			 * The handshake processor stopped although there
+			 * is unread input: it is waiting for room to write
+			 * output, which a shared buffer can never provide
+			 * while that input is pending (e.g. a HelloRequest
+			 * followed by other bytes in the same record). The
+			 * engine would offer no operation at all; the peer
+			 * sent something we cannot process, so we fail.
+			 */
+			br_ssl_engine_fail(cc, BR_ERR_UNEXPECTED);
+		}
 		break;
 	}
 }
